@@ -143,7 +143,10 @@ Definition tr_WriteInt64 (data : Z) (tag : Z) (out : list N) : ctl (list N) (lis
     (fun st : (list N) * bool => let '(out, err) := st in 
     Return (out, false)).
 
-(* struct tars/util/endpoint.Endpoint *)
+Definition k_endpoint_EStaticWeight : Z := 1.
+Definition k_selector_minStaticWeightLimit : Z := 10.
+Definition k_selector_maxStaticWeightLimit : Z := 100.
+(* struct github.com/TarsCloud/TarsGo/tars/util/endpoint.Endpoint *)
 Record go_endpoint_Endpoint := { go_endpoint_Endpoint_Host : (list N);
   go_endpoint_Endpoint_Port : Z;
   go_endpoint_Endpoint_Timeout : Z;
@@ -158,6 +161,46 @@ Record go_endpoint_Endpoint := { go_endpoint_Endpoint_Host : (list N);
   go_endpoint_Endpoint_Container : (list N);
   go_endpoint_Endpoint_SetId : (list N);
   go_endpoint_Endpoint_Key : (list N) }.
+
+(* tars/selector/selector.go: func BuildStaticWeightList, statements "var maxRange, totalWeight int" .. "if minWeight > 0 {" *)
+Definition tr_BSWL_range (endpoints : (list go_endpoint_Endpoint)) : ctl (Z * Z * Z * Z) (list Z) :=
+  let maxRange : Z := 0 in let totalWeight : Z := 0 in
+    let '(minWeight, maxWeight) := (k_math_MaxInt32, k_math_MinInt32) in
+    bindc (go_range endpoints (fun (_ : Z) (node : go_endpoint_Endpoint) => fun st : Z * Z => let '(minWeight, maxWeight) := st in 
+      if (negb ((go_endpoint_Endpoint_WeightType node) =? k_endpoint_EStaticWeight))
+      then Return (@nil Z)
+      else let weight := (go_endpoint_Endpoint_Weight node) in
+      bindc (if (maxWeight <? weight)
+        then let maxWeight := weight in
+          Next maxWeight
+        else Next maxWeight)
+      (fun maxWeight : Z => 
+      bindc (if (weight <? minWeight)
+        then let minWeight := weight in
+          Next minWeight
+        else Next minWeight)
+      (fun minWeight : Z => 
+      Next (minWeight, maxWeight)))) (minWeight, maxWeight))
+    (fun st : Z * Z => let '(minWeight, maxWeight) := st in 
+    if (maxWeight <=? 0)
+    then Return (@nil Z)
+    else bindc (if (0 <? minWeight)
+      then go_guard (negb (minWeight =? 0)) (let maxRange := (wrapS 64 (Z.quot maxWeight minWeight)) in
+        bindc (if (maxRange <? k_selector_minStaticWeightLimit)
+          then let maxRange := k_selector_minStaticWeightLimit in
+            Next maxRange
+          else Next maxRange)
+        (fun maxRange : Z => 
+        bindc (if (k_selector_maxStaticWeightLimit <? maxRange)
+          then let maxRange := k_selector_maxStaticWeightLimit in
+            Next maxRange
+          else Next maxRange)
+        (fun maxRange : Z => 
+        Next (maxRange, totalWeight))))
+      else let '(maxRange, totalWeight) := (1, 1) in
+        Next (maxRange, totalWeight))
+    (fun st : Z * Z => let '(maxRange, totalWeight) := st in 
+    Next (maxRange, totalWeight, minWeight, maxWeight))).
 
 (* tars/util/endpoint/parse.go: func Parse, statements "isTcp := int32(0)" .. "e := Endpoint{" *)
 Definition tr_Parse_build (proto : (list N)) (host : (list N)) (bind : (list N)) (port : Z) (timeout : Z) (grid : Z) (qos : Z) (weight : Z) (weightType : Z) (authType : Z) : ctl go_endpoint_Endpoint go_endpoint_Endpoint :=
